@@ -367,7 +367,7 @@ pub fn get_repeated_file_path_from_diff_line(line: &str) -> Option<String> {
     if let Some(line) = line.strip_prefix("diff --git ") {
         let line: Vec<&str> = line.graphemes(true).collect();
         let midpoint = line.len() / 2;
-        if line[midpoint] == " " {
+        if line.get(midpoint) == Some(&" ") {
             let first_path = _parse_file_path(&line[..midpoint].join(""), true);
             let second_path = _parse_file_path(&line[midpoint + 1..].join(""), true);
             if first_path == second_path {
